@@ -114,13 +114,15 @@ PROPS = {
         assumptions=[A['A4'], "contract of hash_to_field (count elements, element i a function of (msg,dst,count,i)) assumed here", A['TOOLS']],
     ),
     'C07': dict(
+        standins=['batch_normalization'],
         units_quick=['scalar', 'consts', 'codec', 'serdes'], units_thorough=['scalar', 'consts', 'codec', 'serdes', 'curve', 'cofactor', 'h2c', 'ffdep'], timeout=1800,
         claim="the membership predicate (real bodies, G1 and G2): in_subgroup(p) == (p is the identity or y^2 = x^3 + b) and [r]p = O, composed of "
               "is_on_curve (field formula exact), is_in_correct_subgroup_assuming_on_curve = mul(Fr::char()).is_zero() with mul the verified "
               "double-and-add; scale_by_cofactor multiplies by exactly h1 / h2. Closure of the subgroup under the group operations is group theory over "
               "the contracts of C01/C02; hash and map outputs: C14; successfully decoded / deserialized points pass the checked decoder, whose last test is this predicate "
               "(units codec and serdes, also run by this check).",
-        not_covered=["random(): rejection loop over an RNG", "generators: [r]G = O is computed on the standard coordinates by the generator of unit consts with exact integer arithmetic (a closed-term check, not a Verus obligation); that get_generator returns those constants is read off the code",
+        not_covered=["random(): rejection loop over an RNG", "batch_normalization (hands out points too; iterator pipeline outside the Verus subset): only through the labelled stand-in of C01, run by this check as well",
+                     "generators: [r]G = O is computed on the standard coordinates by the generator of unit consts with exact integer arithmetic (a closed-term check, not a Verus obligation); that get_generator returns those constants is read off the code",
                      "Fr MODULUS = r, B_COEFF = 4 and the G1 and G2 generator coordinates (standard values, on the curve) are checked as closed terms in unit consts"],
         assumptions=[A['A3'], A['A4'], "ff::BitIterator contract (MSB-first bits of the limb value): proved on the pinned registry source in unit ffdep (thorough tier)", A['D_FQ'], A['TOOLS']],
     ),
